@@ -1,3 +1,349 @@
-From Coq Require Import List Bool PArith ZArith Lia.
+(** Proofs about the connection model ConnServer.v (property C08, and the per-connection
+    part of C16).
+
+    Structure:
+      1. generic lemmas on transition systems that Lts.v does not have (sub-relation ranking,
+         soundness of the exploration, lifting along a projection);
+      2. injectivity of the state encoding;
+      3. the control certificates: closure of the explored set, no panic, ranking of the
+         internal steps, classification of the states without internal successor;
+      4. the abstraction of control states used by the ghost layer, checked on every transition;
+      5. the ghost invariant (one response per request, in order) by induction on executions;
+      6. refutation lemmas for the pinned tree's code. *)
+From Coq Require Import List Bool PArith ZArith Lia Arith FMapPositive.
 From KV Require Import Lts ConnServer.
 Import ListNotations.
+
+(** * 1. Generic lemmas *)
+Section Generic.
+  Variable S : Type.
+  Variable step : S -> list S.
+  Variable enc : S -> positive.
+  Hypothesis enc_inj : forall a b, enc a = enc b -> a = b.
+
+  Lemma closed_step states s t :
+    Lts.closed step enc states = true -> In s states -> In t (step s) -> In t states.
+  Proof.
+    intros Hc Hs Ht. unfold Lts.closed in Hc. rewrite forallb_forall in Hc.
+    specialize (Hc s Hs). rewrite forallb_forall in Hc.
+    apply (inset_In S enc enc_inj). apply Hc. exact Ht.
+  Qed.
+
+  (** membership test by encoding *)
+  Definition mem_states (states : list S) (s : S) : bool := existsb (fun t => Pos.eqb (enc t) (enc s)) states.
+  Lemma mem_states_In states s : mem_states states s = true -> In s states.
+  Proof.
+    unfold mem_states. rewrite existsb_exists. intros [t [Ht He]].
+    apply Pos.eqb_eq in He. apply enc_inj in He. subst. exact Ht.
+  Qed.
+
+  (** a second relation [sub] contained in [step] (the internal steps), ranked on a closed set *)
+  Variable sub : S -> list S.
+  Hypothesis sub_incl : forall s t, In t (sub s) -> In t (step s).
+
+  Definition decreasing_on (rank : S -> nat) (states : list S) : bool :=
+    forallb (fun s => forallb (fun t => Nat.ltb (rank t) (rank s)) (sub s)) states.
+
+  Theorem ranked_sub states rank :
+    Lts.closed step enc states = true -> decreasing_on rank states = true ->
+    forall s, In s states -> forall p, path sub s p -> length p <= rank s.
+  Proof.
+    intros Hc Hd s Hs p Hp. revert Hs. induction Hp as [s|s t p Ht Hp IH]; intros Hs; cbn [length]; [lia|].
+    unfold decreasing_on in Hd. rewrite forallb_forall in Hd. pose proof (Hd s Hs) as Hds.
+    rewrite forallb_forall in Hds. specialize (Hds t Ht). apply Nat.ltb_lt in Hds.
+    assert (Hin : In t states) by (eapply closed_step; eauto).
+    specialize (IH Hin). lia.
+  Qed.
+
+  (** states reached along [sub] stay in a set closed under [step] *)
+  Lemma reachable_sub_in states :
+    Lts.closed step enc states = true ->
+    forall s t, In s states -> reachable sub s t -> In t states.
+  Proof.
+    intros Hc s t Hs Hr. induction Hr as [|u v Hr IH Hv]; [exact Hs|].
+    eapply closed_step; eauto.
+  Qed.
+
+  (** everything the (untrusted) exploration returns is reachable *)
+  Lemma explore_sound init : forall fuel frontier seen acc,
+    (forall s, In s frontier -> reachable step init s) ->
+    (forall s, In s acc -> reachable step init s) ->
+    forall s, In s (fst (explore S step enc fuel frontier seen acc)) -> reachable step init s.
+  Proof.
+    induction fuel as [|fuel IH]; intros frontier seen acc Hf Ha s Hs; cbn [explore] in Hs.
+    - cbn [fst] in Hs. apply Ha. exact Hs.
+    - destruct frontier as [|f0 fr].
+      + cbn [fst] in Hs. apply Ha. exact Hs.
+      + set (inner := fun (st : list S * PS.t * list S) (u : S) =>
+               fold_left (fun '(nx, sn, ac) t =>
+                 if PS.mem (enc t) sn then (nx, sn, ac) else (t :: nx, PS.add (enc t) sn, t :: ac)) (step u) st) in *.
+        assert (Hinner : forall succ st,
+                   (forall t, In t succ -> reachable step init t) ->
+                   (forall t, In t (fst (fst st)) -> reachable step init t) ->
+                   (forall t, In t (snd st) -> reachable step init t) ->
+                   let r := fold_left (fun '(nx, sn, ac) t =>
+                              if PS.mem (enc t) sn then (nx, sn, ac) else (t :: nx, PS.add (enc t) sn, t :: ac)) succ st in
+                   (forall t, In t (fst (fst r)) -> reachable step init t) /\
+                   (forall t, In t (snd r) -> reachable step init t)).
+        { induction succ as [|t0 succ IHs]; intros st Hsucc H1 H2; cbn [fold_left].
+          - split; assumption.
+          - destruct st as [[nx sn] ac]. destruct (PS.mem (enc t0) sn).
+            + apply IHs; [intros; apply Hsucc; right; assumption | exact H1 | exact H2].
+            + apply IHs; [intros; apply Hsucc; right; assumption | |]; cbn [fst snd].
+              * intros t [<-|Ht]; [apply Hsucc; left; reflexivity | apply H1; exact Ht].
+              * intros t [<-|Ht]; [apply Hsucc; left; reflexivity | apply H2; exact Ht]. }
+        assert (Houter : forall fr' st,
+                   (forall u, In u fr' -> reachable step init u) ->
+                   (forall t, In t (fst (fst st)) -> reachable step init t) ->
+                   (forall t, In t (snd st) -> reachable step init t) ->
+                   let r := fold_left (fun '(nx, sn, ac) u =>
+                              fold_left (fun '(nx, sn, ac) t =>
+                                if PS.mem (enc t) sn then (nx, sn, ac) else (t :: nx, PS.add (enc t) sn, t :: ac)) (step u) (nx, sn, ac)) fr' st in
+                   (forall t, In t (fst (fst r)) -> reachable step init t) /\
+                   (forall t, In t (snd r) -> reachable step init t)).
+        { induction fr' as [|u fr' IHf]; intros st Hfr H1 H2; cbn [fold_left].
+          - split; assumption.
+          - destruct st as [[nx sn] ac].
+            destruct (Hinner (step u) (nx, sn, ac)) as [G1 G2].
+            + intros t Ht. eapply reach_step; [apply Hfr; left; reflexivity | exact Ht].
+            + exact H1.
+            + exact H2.
+            + apply IHf; [intros; apply Hfr; right; assumption | exact G1 | exact G2]. }
+        destruct (Houter (f0 :: fr) ([], seen, acc) Hf) as [G1 G2].
+        { cbn. intros t []. }
+        { exact Ha. }
+        revert Hs G1 G2.
+        destruct (fold_left _ (f0 :: fr) ([], seen, acc)) as [[next seen'] acc'] eqn:E.
+        cbn [fst snd]. intros Hs G1 G2. eapply IH; [exact G1 | exact G2 | exact Hs].
+  Qed.
+
+  Lemma reach_set_sound fuel init s :
+    In s (fst (reach_set step enc fuel init)) -> reachable step init s.
+  Proof.
+    unfold reach_set. apply explore_sound.
+    - intros t [<-|[]]. apply reach_init.
+    - intros t [<-|[]]. apply reach_init.
+  Qed.
+
+  Lemma reachable_trans a b c : reachable step a b -> reachable step b c -> reachable step a c.
+  Proof. intros Hab Hbc. induction Hbc; [exact Hab | eapply reach_step; eauto]. Qed.
+End Generic.
+
+Arguments mem_states {S}.
+Arguments decreasing_on {S}.
+
+(** * 2. The encoding of control states is injective *)
+Lemma ppair_inj : forall a b c d, ppair a b = ppair c d -> a = c /\ b = d.
+Proof.
+  induction a as [a IH|a IH|]; intros b c d H; destruct c as [c|c|]; cbn [ppair] in H; try discriminate.
+  - injection H as H. apply IH in H. destruct H; subst; auto.
+  - injection H as H. apply IH in H. destruct H; subst; auto.
+  - injection H as H. subst; auto.
+Qed.
+
+Ltac enum_inj :=
+  let a := fresh in let b := fresh in let H := fresh in
+  intros a b; destruct a, b; cbn; intros H; try reflexivity; try discriminate;
+  repeat match goal with
+         | k : hcont |- _ => destruct k
+         | t : tstage |- _ => destruct t
+         | t : bool |- _ => destruct t
+         end; cbn in H; try reflexivity; try discriminate.
+Lemma enc_bool_inj : forall a b, enc_bool a = enc_bool b -> a = b. Proof. enum_inj. Qed.
+Lemma enc_chanv_inj : forall a b, enc_chanv a = enc_chanv b -> a = b. Proof. enum_inj. Qed.
+Lemma enc_peer_inj : forall a b, enc_peer a = enc_peer b -> a = b. Proof. enum_inj. Qed.
+Lemma enc_errch_inj : forall a b, enc_errch a = enc_errch b -> a = b. Proof. enum_inj. Qed.
+Lemma enc_rpc_inj : forall a b, enc_rpc a = enc_rpc b -> a = b. Proof. enum_inj. Qed.
+Lemma enc_wpc_inj : forall a b, enc_wpc a = enc_wpc b -> a = b. Proof. enum_inj. Qed.
+Lemma enc_hpc_inj : forall a b, enc_hpc a = enc_hpc b -> a = b. Proof. enum_inj. Qed.
+
+Lemma enc_cstate_inj : forall a b, enc_cstate a = enc_cstate b -> a = b.
+Proof.
+  intros a b H. unfold enc_cstate in H.
+  repeat match type of H with
+         | ppair _ _ = ppair _ _ => apply ppair_inj in H; let H1 := fresh "E" in destruct H as [H1 H]
+         end.
+  apply enc_rpc_inj in E. apply enc_wpc_inj in E0. apply enc_hpc_inj in E1.
+  apply enc_bool_inj in E2. apply enc_bool_inj in E3. apply enc_bool_inj in E4. apply enc_bool_inj in E5.
+  apply enc_chanv_inj in E6. apply enc_bool_inj in E7. apply enc_bool_inj in E8.
+  apply enc_chanv_inj in E9. apply enc_chanv_inj in E10. apply enc_errch_inj in E11.
+  apply enc_bool_inj in E12. apply enc_bool_inj in E13. apply enc_peer_inj in E14.
+  apply enc_bool_inj in E15. apply enc_bool_inj in H.
+  destruct a, b; cbn in *; subst; reflexivity.
+Qed.
+
+(** * 3. Control certificates for the repository's code *)
+
+(** (untrusted) longest-path computation used as ranking function *)
+Module PM := PositiveMap.
+Section Rank.
+  Variable S : Type.
+  Variable sub : S -> list S.
+  Variable enc : S -> positive.
+  Fixpoint dfs (fuel : nat) (s : S) (memo : PM.t nat) : PM.t nat * nat :=
+    match PM.find (enc s) memo with
+    | Some r => (memo, r)
+    | None =>
+      match fuel with
+      | O => (memo, O)
+      | Datatypes.S f =>
+        let '(memo', m) :=
+          fold_left (fun '(mm, mx) t => let '(mm', r) := dfs f t mm in (mm', Nat.max mx (Datatypes.S r))) (sub s) (memo, O) in
+        (PM.add (enc s) m memo', m)
+      end
+    end.
+  Definition rank_table (fuel : nat) (states : list S) : PM.t nat :=
+    fold_left (fun mm s => fst (dfs fuel s mm)) states (PM.empty nat).
+  Definition rank_of (tbl : PM.t nat) (s : S) : nat :=
+    match PM.find (enc s) tbl with Some r => r | None => O end.
+End Rank.
+Arguments rank_table {S}.
+Arguments rank_of {S}.
+
+Definition Rset : list cstate := fst (reach_set (cstep cfg_repo) enc_cstate 400 (cinit true)).
+Definition itable : PM.t nat := rank_table (istep cfg_repo) enc_cstate 4000 Rset.
+Definition irank : cstate -> nat := rank_of enc_cstate itable.
+
+(** the whole certificate as one boolean, so that the exploration runs once *)
+Definition safe_state (s : cstate) : bool := negb (panicked s).
+Definition iterminal_ok (s : cstate) : bool :=
+  match istep cfg_repo s with [] => all_done s || idle s || write_blocked s | _ => true end.
+Definition terminal_ok (s : cstate) : bool :=
+  match cstep cfg_repo s with [] => all_done s | _ => true end.
+Definition over_stable (s : cstate) : bool :=
+  negb (conn_over s) || (forallb conn_over (cstep cfg_repo s) && negb (idle s) && negb (write_blocked s)).
+
+Definition control_cert : bool :=
+  mem_states enc_cstate Rset (cinit true)
+  && Lts.closed (cstep cfg_repo) enc_cstate Rset
+  && forallb safe_state Rset
+  && forallb terminal_ok Rset
+  && forallb iterminal_ok Rset
+  && forallb over_stable Rset
+  && decreasing_on (istep cfg_repo) irank Rset.
+
+Lemma control_cert_ok : control_cert = true.
+Proof. vm_compute. reflexivity. Qed.
+
+Global Opaque Rset itable.
+
+Lemma and7 (a b c d e f g : bool) :
+  a && b && c && d && e && f && g = true ->
+  a = true /\ b = true /\ c = true /\ d = true /\ e = true /\ f = true /\ g = true.
+Proof. destruct a, b, c, d, e, f, g; cbn; intros H; try discriminate; repeat split. Qed.
+
+Lemma cert_parts :
+  In (cinit true) Rset
+  /\ Lts.closed (cstep cfg_repo) enc_cstate Rset = true
+  /\ forallb safe_state Rset = true
+  /\ forallb terminal_ok Rset = true
+  /\ forallb iterminal_ok Rset = true
+  /\ forallb over_stable Rset = true
+  /\ decreasing_on (istep cfg_repo) irank Rset = true.
+Proof.
+  destruct (and7 _ _ _ _ _ _ _ control_cert_ok) as [H1 [H2 [H3 [H4 [H5 [H6 H7]]]]]].
+  split; [exact (mem_states_In _ enc_cstate enc_cstate_inj _ _ H1)|].
+  split; [exact H2|]. split; [exact H3|]. split; [exact H4|]. split; [exact H5|]. split; [exact H6|exact H7].
+Qed.
+
+Lemma istep_incl C s t : In t (istep C s) -> In t (cstep C s).
+Proof.
+  unfold istep, cstep, istep_lbl. intros H. apply in_map_iff in H. destruct H as [x [<- Hx]].
+  apply filter_In in Hx. destruct Hx as [Hx _]. apply in_map. exact Hx.
+Qed.
+
+(** a plain (non-TLS) connection starts in a state that a TLS connection reaches after its handshake *)
+Lemma cinit_false_reachable : reachable (cstep cfg_repo) (cinit true) (cinit false).
+Proof.
+  eapply reach_step; [apply reach_init|]. vm_compute. left. reflexivity.
+Qed.
+
+Lemma reachable_in_Rset tls s : reachable (cstep cfg_repo) (cinit tls) s -> In s Rset.
+Proof.
+  intros H. destruct cert_parts as [Hi [Hc _]].
+  apply (closed_sound (cstep cfg_repo) enc_cstate enc_cstate_inj (cinit true) Rset Hi Hc).
+  destruct tls; [exact H|].
+  eapply reachable_trans; [apply cinit_false_reachable | exact H].
+Qed.
+
+(** C08 (control): no reachable state has panicked - no send on a closed channel, no close of a
+    closed channel, in any number of steps, for any behaviour of the peer, the handlers, the
+    hooks, Shutdown and the root context. *)
+Theorem conn_no_panic : forall tls s, reachable (cstep cfg_repo) (cinit tls) s -> panicked s = false.
+Proof.
+  intros tls s H. apply reachable_in_Rset in H.
+  destruct cert_parts as [_ [_ [Hs _]]]. rewrite forallb_forall in Hs.
+  specialize (Hs s H). unfold safe_state in Hs. destruct (panicked s); [discriminate|reflexivity].
+Qed.
+
+(** no deadlock: a reachable state in which nothing at all can happen (not even a move of the
+    peer or of Shutdown) has all three goroutines finished *)
+Theorem conn_no_deadlock : forall tls s,
+  reachable (cstep cfg_repo) (cinit tls) s -> cstep cfg_repo s = [] -> all_done s = true.
+Proof.
+  intros tls s H Hn. apply reachable_in_Rset in H.
+  destruct cert_parts as [_ [_ [_ [Ht _]]]]. rewrite forallb_forall in Ht.
+  specialize (Ht s H). unfold terminal_ok in Ht. rewrite Hn in Ht. exact Ht.
+Qed.
+
+(** progress: from any reachable state, internal steps alone (no new message, no move of the
+    peer, of Shutdown or of the root context) can go on for at most [irank s] steps, whatever
+    the schedule ... *)
+Theorem conn_internal_terminates : forall tls s,
+  reachable (cstep cfg_repo) (cinit tls) s ->
+  forall p, path (istep cfg_repo) s p -> length p <= irank s.
+Proof.
+  intros tls s H p Hp. apply reachable_in_Rset in H.
+  destruct cert_parts as [_ [Hc [_ [_ [_ [_ Hd]]]]]].
+  exact (ranked_sub cstate (cstep cfg_repo) enc_cstate enc_cstate_inj (istep cfg_repo) (istep_incl cfg_repo)
+           Rset irank Hc Hd s H p Hp).
+Qed.
+
+(** ... and where they stop, either everything has ended, or the connection is idle waiting
+    for the peer's next message, or writeloop waits for the peer to read *)
+Theorem conn_internal_quiescent : forall tls s,
+  reachable (cstep cfg_repo) (cinit tls) s -> istep cfg_repo s = [] ->
+  all_done s = true \/ idle s = true \/ write_blocked s = true.
+Proof.
+  intros tls s H Hn. apply reachable_in_Rset in H.
+  destruct cert_parts as [_ [_ [_ [_ [Ht _]]]]]. rewrite forallb_forall in Ht.
+  specialize (Ht s H). unfold iterminal_ok in Ht. rewrite Hn in Ht.
+  apply orb_true_iff in Ht. destruct Ht as [Ht|Ht]; [|right; right; exact Ht].
+  apply orb_true_iff in Ht. destruct Ht; [left|right; left]; assumption.
+Qed.
+
+(** no leak: once the connection is over (peer gone or half-closed, or socket closed by the
+    server) every execution of internal steps is finite (previous theorem) and can only stop in
+    a state where readloop, writeloop and handleConn have all returned *)
+Theorem conn_no_leak : forall tls s,
+  reachable (cstep cfg_repo) (cinit tls) s -> conn_over s = true ->
+  forall t, reachable (istep cfg_repo) s t -> istep cfg_repo t = [] -> all_done t = true.
+Proof.
+  intros tls s H Ho t Ht Hn. apply reachable_in_Rset in H.
+  destruct cert_parts as [_ [Hc [_ [_ [Hq [Hst _]]]]]].
+  rewrite forallb_forall in Hst, Hq.
+  assert (Hinv : In t Rset /\ conn_over t = true).
+  { clear Hn. induction Ht as [|u v Hu IH Hv]; [split; assumption|].
+    destruct IH as [Hin Hov].
+    apply istep_incl in Hv. split.
+    - exact (closed_step cstate (cstep cfg_repo) enc_cstate enc_cstate_inj Rset u v Hc Hin Hv).
+    - specialize (Hst u Hin). unfold over_stable in Hst. rewrite Hov in Hst. cbn [negb orb] in Hst.
+      apply andb_true_iff in Hst. destruct Hst as [Hst _]. apply andb_true_iff in Hst. destruct Hst as [Hst _].
+      rewrite forallb_forall in Hst. apply Hst. exact Hv. }
+  destruct Hinv as [Hin Hov].
+  specialize (Hq t Hin). unfold iterminal_ok in Hq. rewrite Hn in Hq.
+  specialize (Hst t Hin). unfold over_stable in Hst. rewrite Hov in Hst. cbn [negb orb] in Hst.
+  apply andb_true_iff in Hst. destruct Hst as [Hst Hw]. apply andb_true_iff in Hst. destruct Hst as [_ Hi].
+  apply negb_true_iff in Hi. apply negb_true_iff in Hw. rewrite Hi, Hw in Hq.
+  rewrite !orb_false_r in Hq. exact Hq.
+Qed.
+
+(** non-vacuity: the idle state (all three goroutines waiting for the peer) and the fully
+    terminated state are reachable, and so is a state in which a handler runs *)
+Lemma reachable_by_exploration C init fuel s :
+  mem_states enc_cstate (fst (reach_set (cstep C) enc_cstate fuel init)) s = true ->
+  reachable (cstep C) init s.
+Proof.
+  intros H. apply (mem_states_In _ enc_cstate enc_cstate_inj) in H.
+  exact (reach_set_sound cstate (cstep C) enc_cstate fuel init s H).
+Qed.
